@@ -83,6 +83,13 @@ def leaf(iface, ident, log):
 
             def __call__(self, environ, start_response):
                 dec = lambda v: v.encode("latin-1").decode("utf-8", "surrogateescape")  # WSGI-native strings -> text (undecodable bytes kept)
+                if sum(ident) % 2:
+                    # a lazy application (a generator function, a router of its own): it looks at the environ when the server
+                    # starts to iterate, not when it is called
+                    def lazy():
+                        log.append((ident, dec(environ.get("SCRIPT_NAME", "")), dec(environ.get("PATH_INFO", ""))))
+                        yield from W.PlainTextResponse(json.dumps(ident))(environ, start_response)
+                    return lazy()
                 log.append((ident, dec(environ.get("SCRIPT_NAME", "")), dec(environ.get("PATH_INFO", ""))))
                 return W.PlainTextResponse(json.dumps(ident))(environ, start_response)
         return App()
@@ -368,6 +375,8 @@ def request(iface, app, root, path, host=None, log=None, info=None):
             scope["raw_path"] = None
         elif len(path) % 3 == 2:
             scope.pop("raw_path", None)
+        if host is not None and len(host) % 2:
+            scope["headers"] = list(scope["headers"]) + [(b"x-forwarded-host", b"zz.invalid"), (b":authority", b"zz.invalid")]  # other fields that name a host are not the Host field
         before = copy.deepcopy(scope)
         res = SV.run_asgi(app, scope, SV.to_messages(req))
         untouched = scope == before
